@@ -142,6 +142,37 @@ Theorem C19_error_isolation : forall r outs i e,
 Proof. exact error_isolation. Qed.
 Print Assumptions C19_error_isolation.
 
+(* ---- the Transport's split round trip (connPool.roundTrip Splitter path, join, joined.await) ----
+   Every message is sent; results[i] is the outcome of messages[i] — an answer or the error of
+   that round trip (unreachable leader, dropped connection, unknown broker) — and all of them are
+   handed to Merge.  For every request and every per-entry outcome: *)
+
+(* the call is Merge over the positionally aligned outcomes *)
+Theorem C19_transport_split_is_merge : forall outcome_of r,
+  split_round_trip (send_of outcome_of) r =
+  listoffsets_merge (listoffsets_split r) (results_of (req_entries r) (map outcome_of (req_entries r))).
+Proof. exact split_round_trip_merge. Qed.
+Print Assumptions C19_transport_split_is_merge.
+
+(* hence, unless every sub-request failed, the call succeeds: healthy entries carry their
+   leader's answer, a failed sub-request's error lands on its own (topic, partition) only *)
+Theorem C19_transport_split_exact : forall outcome_of r,
+  existsb is_answer (map outcome_of (req_entries r)) = true \/ req_entries r = [] ->
+  exists resp,
+    split_round_trip (send_of outcome_of) r = MergeOk resp /\
+    Permutation (resp_entries (r_topics resp)) (expected_entries (req_entries r) (map outcome_of (req_entries r))) /\
+    r_throttle resp = max_throttle (map outcome_of (req_entries r)) /\
+    merged_sorted (r_topics resp).
+Proof. exact split_round_trip_exact. Qed.
+Print Assumptions C19_transport_split_exact.
+
+(* and only when every sub-request failed is the (first) error the result of the call *)
+Theorem C19_transport_split_all_failed : forall outcome_of r,
+  req_entries r <> [] -> existsb is_answer (map outcome_of (req_entries r)) = false ->
+  split_round_trip (send_of outcome_of) r = MergeErr (first_error (map outcome_of (req_entries r))).
+Proof. exact split_round_trip_all_failed. Qed.
+Print Assumptions C19_transport_split_all_failed.
+
 (* ======================= user-level mappings ======================= *)
 
 Theorem C19_mapping_exact_offsetfetch : forall r,
